@@ -1,7 +1,7 @@
 (* Correspondence cases for the container reader (C07, C08). *)
 From Coq Require Import String.
 Require Import Avro.Model.Base Avro.Model.Prim Avro.Model.Schema Avro.Model.GoType
-               Avro.Model.Spec Avro.Model.Codec Avro.Model.Container.
+               Avro.Model.Spec Avro.Model.Codec Avro.Model.Container Avro.Model.Compress.
 Require Import Avro.Corr.Common Avro.Corr.Codec.
 Export Avro.Model.Base Avro.Model.Schema Avro.Model.GoType Avro.Model.Codec Avro.Model.Container Avro.Corr.Common.
 Local Open Scope list_scope.
@@ -16,7 +16,15 @@ Inductive case :=
         (file : bytes)
         (decomp : list (bytes * option bytes))   (* the real decompressor of the header's codec on every stored block *)
         (cbfail : Z)                     (* record index at which the callback fails; -1 = never *)
-        (impl_n : Z) (impl : fclass).
+        (impl_n : Z) (impl : fclass)
+(* a file whose header names snappy: the table holds what golang/snappy itself says about the
+   body of every stored block (the block without its last four bytes): DecodedLen and Decode.
+   The framing, the length guard and the CRC-32 comparison are the model's (Model/Compress.v). *)
+| KFileSn (schema_ok : option gschema) (t : gtype) (file : bytes)
+          (raw : list (bytes * (option Z * option bytes)))
+          (cbfail : Z) (impl_n : Z) (impl : fclass)
+(* hash/crc32.ChecksumIEEE on its own *)
+| KCrc (data : bytes) (impl_crc : Z).
 
 Fixpoint table_get (tb : list (bytes * option bytes)) (k : bytes) {struct tb} : option bytes :=
   match tb with
@@ -27,8 +35,16 @@ Fixpoint table_get (tb : list (bytes * option bytes)) (k : bytes) {struct tb} : 
 Definition fclass_eqb (a c : fclass) : bool :=
   match a, c with CkOk, CkOk | CkErr, CkErr | CkCb, CkCb | CkPanic, CkPanic => true | _, _ => false end.
 
-Definition run_file (schema_ok : option gschema) (t : gtype) (file : bytes)
-           (decomp : list (bytes * option bytes)) (cbfail : Z) : nat * fclass :=
+Fixpoint raw_get (tb : list (bytes * (option Z * option bytes))) (k : bytes) {struct tb} : option (option Z * option bytes) :=
+  match tb with
+  | [] => None
+  | (k', v) :: r => if bytes_eqb k k' then Some v else raw_get r k
+  end.
+Definition raw_len_of tb (k : bytes) : option Z := match raw_get tb k with Some (n, _) => n | None => None end.
+Definition raw_dec_of tb (k : bytes) : option bytes := match raw_get tb k with Some (_, d) => d | None => None end.
+
+Definition run_file_with (decompress : bytes -> option bytes) (schema_ok : option gschema) (t : gtype) (file : bytes)
+           (cbfail : Z) : nat * fclass :=
   match read_header file with
   | None => (O, CkErr)
   | Some (h, rest) =>
@@ -43,7 +59,7 @@ Definition run_file (schema_ok : option gschema) (t : gtype) (file : bytes)
           let fuel := fuel_for file in
           let rr := fun bs => obind (c_read fuel c (zero_of (top_type t)) bs) (fun _ r => Done tt r) in
           let cb := fun i : nat => if Z.of_nat i =? cbfail then Some 1 else None in
-          match read_blocks (table_get decomp) rr cb (S (length file)) (h_sync h) O rest with
+          match read_blocks decompress rr cb (S (length file)) (h_sync h) O rest with
           | (n, FOk) => (n, CkOk)
           | (n, FErr) => (n, CkErr)
           | (n, FCb _) => (n, CkCb)
@@ -54,11 +70,19 @@ Definition run_file (schema_ok : option gschema) (t : gtype) (file : bytes)
     end
   end.
 
+Definition run_file (schema_ok : option gschema) (t : gtype) (file : bytes)
+           (decomp : list (bytes * option bytes)) (cbfail : Z) : nat * fclass :=
+  run_file_with (table_get decomp) schema_ok t file cbfail.
+
 Definition check (c : case) : bool :=
   match c with
   | KFile so t file decomp cbfail impl_n impl =>
       let '(n, k) := run_file so t file decomp cbfail in
       (Z.of_nat n =? impl_n) && fclass_eqb k impl
+  | KFileSn so t file raw cbfail impl_n impl =>
+      let '(n, k) := run_file_with (snappy_decompress (raw_dec_of raw) (raw_len_of raw)) so t file cbfail in
+      (Z.of_nat n =? impl_n) && fclass_eqb k impl
+  | KCrc data impl_crc => crc32 data =? impl_crc
   end.
 
 Definition bad_ids := bad_ids_gen check.
